@@ -62,11 +62,13 @@ func NewFakeIdP() *FakeIdP {
 		case strings.HasSuffix(lp, "/revoke"):
 			c.Endpoint = "revoke"
 		}
-		f.mu.Lock()
+		// (Answer runs without the lock: a scheduler-based harness may put a scheduling point inside it,
+		// and a second call arriving meanwhile must not block on a real mutex)
 		ans := AuthAnswer{Status: 500, Body: "no script"}
 		if f.Answer != nil {
 			ans = f.Answer(&c)
 		}
+		f.mu.Lock()
 		f.Calls = append(f.Calls, c)
 		f.mu.Unlock()
 		if ans.Reset {
